@@ -149,6 +149,10 @@ func (r *Run) tryReplay(o *Obligation, rf *ReplayFile) {
 	}
 	tb, err := os.ReadFile(tmplPath)
 	if err != nil {
+		// prop.<Cnn>.tmpl: a fixed end-to-end battery for the property, run when the function has no template of its own
+		tb, err = os.ReadFile(filepath.Join(r.Out, "replay_templates", "prop."+r.Prop+".tmpl"))
+	}
+	if err != nil {
 		rf.Note = "no replay template for " + o.Func + "; solver output attached"
 		return
 	}
@@ -266,7 +270,11 @@ func (r *Run) tryTableReplay(o *Obligation, rf *ReplayFile) {
 	family, arg := name[:i], name[i+1:j]
 	tb, err := os.ReadFile(filepath.Join(r.Out, "replay_templates", "table."+strings.ReplaceAll(family, "/", "_")+".tmpl"))
 	if err != nil {
-		return
+		// no template of its own: the property's bounded corpus (the real code run on generated inputs) is the replay
+		tb, err = os.ReadFile(filepath.Join(r.Out, "replay_templates", "bounded."+r.Prop+"-corpus.tmpl"))
+		if err != nil {
+			return
+		}
 	}
 	for _, line := range strings.Split(string(tb), "\n") {
 		if strings.HasPrefix(line, "//govc:pkgdir ") {
